@@ -85,6 +85,7 @@ type StepSpec struct {
 	RetryLimit    int      `json:"retryLimit"` // -1 = no retryPolicy
 	RetryInterval int      `json:"retryIntervalSec,omitempty"`
 	Precond       int      `json:"precond,omitempty"` // 0 none, 1 met, 2 unmet
+	PrecondExtra  int      `json:"precondExtra,omitempty"` // a second condition, always met: 1 = listed after the step's own, 2 = listed before it
 	FailFirst     int      `json:"failFirst"`         // number of leading failing attempts; -1 = always fails
 	DurMs         []int    `json:"durMs"`             // per attempt (last repeats)
 	SignalOnStop  string   `json:"signalOnStop,omitempty"`
@@ -155,7 +156,15 @@ func (s *StepSpec) yaml(ind string, cmd string) string {
 		fmt.Fprintf(&b, "%srepeatPolicy:\n%s  repeat: true\n%s  intervalSec: %d\n", in, in, in, s.RepeatSec)
 	}
 	if s.Precond != 0 {
-		fmt.Fprintf(&b, "%spreconditions:\n%s  - condition: %s\n%s    expected: \"yes\"\n", in, in, yq("$COND_"+s.Name), in)
+		own := fmt.Sprintf("%s  - condition: %s\n%s    expected: \"yes\"\n", in, yq("$COND_"+s.Name), in)
+		extra := fmt.Sprintf("%s  - condition: \"$COND_ALWAYS\"\n%s    expected: \"yes\"\n", in, in)
+		switch s.PrecondExtra {
+		case 1:
+			own += extra
+		case 2:
+			own = extra + own
+		}
+		fmt.Fprintf(&b, "%spreconditions:\n%s", in, own)
 	}
 	if s.SignalOnStop != "" {
 		fmt.Fprintf(&b, "%ssignalOnStop: %s\n", in, yq(s.SignalOnStop))
@@ -247,6 +256,7 @@ func (d *DagSpec) CondEnv() []string {
 		}
 		return "no"
 	}
+	env = append(env, "COND_ALWAYS=yes")
 	if d.DagPrecond != 0 {
 		env = append(env, "COND_DAG="+val(d.DagPrecond))
 	}
